@@ -137,7 +137,7 @@ func NormalizeFrequencies(freqs []int, alphabet []int, totalFreq, scale int) (in
 
 	// Shortcut
 	if totalFreq == scale {
-		for i := 0; i < 256; i++ {
+		for i := range alphabet {
 			if freqs[i] != 0 {
 				alphabet[alphabetSize] = i
 				alphabetSize++
